@@ -34,7 +34,16 @@ func vfC03(param string, def int, mk func() vfCodec) {
 		return
 	}
 	vfAssert(k2 == len(enc), "the re-encoding is not consumed completely")
-	vfAssert(reflect.DeepEqual(v1, v2), "decode(encode(decode(b))) differs from decode(b)")
+	if !reflect.DeepEqual(v1, v2) {
+		// a float NaN is not equal to itself: a value that differs from a second decoding of the
+		// same bytes contains one; such values are compared by their encodings instead
+		v1b := mk()
+		v1b.Decode(in)
+		enc2, err2 := v2.Encode()
+		nan := !reflect.DeepEqual(v1, v1b)
+		vfAssert(nan && err2 == nil && string(enc2) == string(enc), "decode(encode(decode(b))) differs from decode(b)")
+		vfReach("nan")
+	}
 	vfReach("stable")
 }
 
